@@ -475,6 +475,24 @@ pub fn con_ls_ls<S: Src>(s: &mut S, n: i8) {
     core::mem::forget(h);
 }
 
+/// concrete closed ring whose start vertex sits in the middle of a side with a further collinear
+/// vertex on that side; symbolic query segment.  (Line strings longer than the symbolic bound:
+/// concrete shape, symbolic query.)
+pub fn con_ring_line<S: Src>(s: &mut S, n: i8) {
+    let ring: [P; 7] = [(2, 0), (3, 0), (4, 0), (4, 4), (0, 4), (0, 0), (2, 0)];
+    let (p, q) = (gp(s, n), gp(s, n));
+    vassume!(p != q);
+    let g = ls_i(&ring);
+    let l = line_i(p, q);
+    let segs = [(ring[0], ring[1]), (ring[1], ring[2]), (ring[2], ring[3]), (ring[3], ring[4]), (ring[4], ring[5]), (ring[5], ring[6])];
+    let want = seg_covered(p, q, &segs, n as W);
+    assert!(g.contains(&l) == want, "closed LineString.contains(Line) differs from the DE-9IM mask");
+    assert!(l.is_within(&g) == want, "Line.is_within(closed LineString) differs from contains flipped");
+    vcover!(want && in_open_segment(ring[0], p, q) && in_open_segment(ring[1], p, q), "contained segment spans the closing vertex and a collinear vertex");
+    vcover!(want && p.0 == q.0, "contained vertical segment");
+        core::mem::forget(g);
+}
+
 /// MultiPolygon ⊇ MultiPoint: no point exterior and at least one interior
 pub fn con_mpoly_mpoint<S: Src>(s: &mut S, n: i8) {
     let t1: [P; 4] = [(0, 0), (3, 0), (0, 3), (0, 0)];
@@ -545,6 +563,7 @@ harnesses! {
     #[kani::unwind(7)] fn c02_con_line_ls_g2(s) { con_line_ls(s, 2) }
     #[kani::unwind(7)] fn c02_con_ls_ls_g2(s) { con_ls_ls(s, 2) }
     #[kani::unwind(10)] fn c02_con_mpoly_mpoint_g4(s) { con_mpoly_mpoint(s, 4) }
+    #[kani::unwind(14)] fn c02_con_ring_line_g4(s) { con_ring_line(s, 4) }
 
     #[kani::unwind(5)] fn c02_sanity_must_fail(s) {
         pos_ls3(s, 2, false);
